@@ -93,7 +93,7 @@ PROPS.update({
 _GRAPH_TRUST = ['assumed contract of the built-in list (append/remove/in/index/clear; abstract list theory T1, validated against CPython lists in the thorough tier)',
                 'graph lemma axioms D1-D5, G1 (transcriptions of lemmas/Graph.lean, proved in Lean 4 + Mathlib; transcription trusted, validated on all relations over <= 4 nodes)',
                 'history induction (meta-argument): every public mutator preserves Inv on both exits, constructors establish it; closed by the encapsulation scan']
-_GRAPH_B = ['WBS.__init__ with initial tasks, operators with a single task or a non-list iterable as right operand - bounded stand-in only (random histories of public calls)',
+_GRAPH_B = ['WBS.__init__ with initial tasks, operators with a right operand that is neither a list nor a single task (set, generator, task-list view) - bounded stand-in only (random histories of public calls)',
             'Task.__init__ does not carry the id clause U1 (a refusal out of the attach loop of the children setter is excluded only for heaps with unique ids) - constructor with children: C15 / C05 by the bounded stand-in',
             'assumed by contract: _to_list (type dispatch of the setters\' argument), the correspondence between the opaque id-clash predicate used in the mutator units and the proved post-condition of _has_id_intersection (same sentence, two formulations), '
             'the read-only list view _ImmutableTaskList (delegates in / iteration / len to the wrapped list). The closure helpers are no longer assumed: Task.all_children / __get_all_children / its generator, '
@@ -107,7 +107,7 @@ _GRAPH_EXPL = ('contract-based deductive verification of the core mutators: Task
                'Result: Inv, the exact effect, `rejected by a check => unchanged`, `rejected only for a stated reason`; and in a second unit over the same function (`[no-late-refusal]`): once the checks have passed the attach loop cannot be refused '
                '(owner, id, cycle and link test of the parent setter each shown to pass at every iteration: the ancestors of the task do not change, owners only become None or the task\'s owner, subtrees of the tasks still to attach do not grow, '
                'the receiving tree only gains incoming tasks, and ids are unique across the receiving tree and the incoming tasks - from U1 and the proved meaning of the id test) - so a rejected assignment changes nothing (C15). Its callers WBS.roots.setter, _ChildrenList.remove, the recursive WBS.__remove (returns True exactly for a task below the start task) '
-               'and WBS.remove, and the operators t // others, t << others, t >> others (right operand a list of tasks) are proved against these contracts. The same operators on a task LIST (_ImmutableTaskList.__lshift__ / __rshift__, a loop over the members) are proved for the accepted call: every member ends with its old links plus the named tasks, no other task changes, the link invariant holds - for a refused call nothing is claimed (the loop stops half-way: known finding A-38). The list facades are proved against those contracts (callers see only the callee contract): _ChildrenList.append / insert / move / sort / reorder and _PredecessorsList / _SuccessorsList append / remove, '
+               'and WBS.remove, and the operators t // others, t << others, t >> others (right operand a list of tasks, a single task or None - two units each; // also when `others` repeats a task or names a current child) are proved against these contracts. The same operators on a task LIST (_ImmutableTaskList.__lshift__ / __rshift__, a loop over the members) are proved for the accepted call: every member ends with its old links plus the named tasks, no other task changes, the link invariant holds - for a refused call nothing is claimed (the loop stops half-way: known finding A-38). The list facades are proved against those contracts (callers see only the callee contract): _ChildrenList.append / insert / move / sort / reorder and _PredecessorsList / _SuccessorsList append / remove, '
                'as are the ownership walks Task._attach / _detach, the list-object setter __set_children and the closure helpers the mutators call (recursive generators executed with a ghost output list; '
                'all_children is proved to return exactly the depth-first listing dfs(t) = concat over the children c in list order of [c] + dfs(c), every strict descendant once - which is WBS.tasks (C05); '
                'termination by measures whose existence in finite acyclic graphs is Lean lemma K1). Task.__init__ (all graph arguments: parent, children, predecessors, successors - two ghost relations, one per side, each the transpose of the other; Lean lemma transpose_acyclic) is proved to establish Inv for the new object - the unallocated part of the heap is modelled as blank objects nobody refers to - and to hand parent / children to the setters. WBS.__init__ (without initial tasks) is proved to create a hidden root with the reserved id that the new WBS owns (the constructor call on the reserved id is used by assumed contract). Level `other`: what is listed below is covered by the bounded native '
